@@ -264,6 +264,11 @@ func runC06(seed int64, n int, dir string, _ []string) {
 			}
 		case 1, 2: // IN / ANY / ALL over a list
 			k := g.Intn(5)
+			// every third list comes from a sub-query over a temporary table, which can also be EMPTY
+			viaSub := g.Intn(3) == 0
+			if viaSub {
+				k = g.Intn(4) - 1
+			}
 			list := make([]value.Primary, k+1)
 			for j := range list {
 				list[j] = g.Val()
@@ -281,9 +286,24 @@ func runC06(seed int64, n int, dir string, _ []string) {
 				enc[j] = hc.EncProfile(p)
 			}
 			lst := "(" + strings.Join(ls[1:], ", ") + ")"
+			if viaSub {
+				rows := make([][]value.Primary, len(list))
+				for j := range list {
+					rows[j] = []value.Primary{list[j]}
+				}
+				if err := pr.DeclareTable("lv", []string{"v"}, rows); err != nil {
+					o.Law("in_sql_error", err.Error())
+					break
+				}
+				lst = "(SELECT v FROM lv ORDER BY id)"
+				o.Count(fmt.Sprintf("list_via_subquery:%d", len(list)))
+			}
 			op := sqlOps[g.Intn(6)]
 			res, err := evalRow(pr, ls[0]+" IN "+lst, ls[0]+" NOT IN "+lst, ls[0]+" "+op+" ANY "+lst, ls[0]+" "+op+" ALL "+lst,
 				ls[0]+" = ANY "+lst, ls[0]+" <> ALL "+lst)
+			if viaSub {
+				pr.DisposeTable("lv")
+			}
 			if err != nil {
 				o.Law("in_sql_error", err.Error())
 				break
